@@ -12,6 +12,9 @@ CMP_METHODS = {"lt": "Lt", "le": "Le", "gt": "Gt", "ge": "Ge", "eq": "Eq", "ne":
 
 
 class Atom:
+    """A boolean branch. `term` has leading negations stripped; `true_*` / `false_*` describe what
+    happens when *term* (the stripped condition) is true / false; `neg` only records that the
+    source condition was written negated."""
     __slots__ = ("fn", "block", "line", "term", "neg", "true_targets", "false_targets",
                  "true_fail", "false_fail", "true_codes", "false_codes", "true_ret", "false_ret")
 
@@ -19,15 +22,11 @@ class Atom:
         """(op, a, b) for comparison atoms with negation folded in, else None."""
         t = self.term
         if t[0] == "bin" and t[1] in CMP:
-            op = NEG[t[1]] if self.neg else t[1]
-            return (op, t[2], t[3])
+            return (t[1], t[2], t[3])
         if t[0] == "call":
             last = t[1].rsplit("::", 1)[-1]
             if last in CMP_METHODS and len(t[2]) == 2:
-                op = CMP_METHODS[last]
-                if self.neg:
-                    op = NEG[op]
-                return (op, t[2][0], t[2][1])
+                return (CMP_METHODS[last], t[2][0], t[2][1])
         return None
 
     def fail_cond(self):
@@ -57,7 +56,7 @@ class Atom:
         if c:
             s = "%s %s %s" % (show(c[1]), c[0], show(c[2]))
         else:
-            s = ("!" if self.neg else "") + show(self.term)
+            s = show(self.term)
         def side(fail, codes, ret):
             if fail:
                 return "fail(%s)" % ",".join(sorted(codes))
